@@ -352,6 +352,16 @@ def make_backend(kind):
     if kind == "os":
         d = _tmpdir()
         return Backend(kind, OSFS(d), cleanup=lambda: rm_rf(d))
+    if kind == "os-links":
+        d = _tmpdir()
+        o = OSFS(d)
+        o.makedirs("real/sub")
+        o.writebytes("real/f.txt", b"target")
+        o.writebytes("top.txt", b"t")
+        os.symlink(os.path.join(d, "real", "f.txt"), os.path.join(d, "flink"))
+        os.symlink(os.path.join(d, "real"), os.path.join(d, "dlink"))
+        os.symlink(os.path.join(d, "real", "f.txt"), os.path.join(d, "real", "sub", "inner-link"))
+        return Backend(kind, o, cleanup=lambda: rm_rf(d))
     if kind == "sub-mem":
         m = MemoryFS()
         m.makedirs("x/y")
@@ -412,6 +422,11 @@ def make_backend(kind):
             m.writebytes("c", nm.encode())
             m.writebytes("only-" + nm, b"x")
             m.writebytes("a/b/c", b"deep")
+        # the same name as a directory in a shadowed layer and a file in the winning one (and vice versa)
+        lo.makedirs("k/inner")
+        hi.writebytes("k", b"file wins")
+        hi.makedirs("j/inner")
+        lo.writebytes("j", b"dir wins")
         mu.add_fs("lo", lo, priority=1)
         mu.add_fs("hi", hi, priority=5)
         mu.add_fs("w", w, write=True, priority=3)
